@@ -1,6 +1,6 @@
 \* C07 negative: the reset list without "ext" (expected: violation for q, opn, vars, ext; none for hdr, rt)
 CONSTANTS
-  Requests <- RequestsConc
+  Requests <- RequestsNeg
   ResetFields <- No_ext
   ResetEarly = FALSE
   CacheKey = "full"
